@@ -137,6 +137,9 @@ class RefServer:
         self.last = None         # (code, text) of the last status reply (for oracles)
         self.greeting_status = greeting_status
         self.closed = False
+        pool = [b'"NOTIFY" "mailto"', b'"LANGUAGE" "fr"', b'"OWNER" "user"', b'"MAXREDIRECTS" "5"', b'"UNAUTHENTICATE"', b'"XSASL" "PLAIN LOGIN"',
+                b'"X-STARTTLS"', b'"SIEVE2" "x"', b'"VERSIONS" "9"', b'"sasl2" "GSSAPI"']
+        self.extra_caps = r.sample(pool, r.randint(0, 3)) if r.random() < 0.5 else []
 
     # -- capability block
     def caps(self):
@@ -151,6 +154,10 @@ class RefServer:
             lines.append(b'"STARTTLS"')
         if self.version:
             lines.append(b'"VERSION" "1.0"')
+        # capabilities the client has no use for (RFC 5804 section 1.7: NOTIFY, LANGUAGE, OWNER, MAXREDIRECTS, UNAUTHENTICATE, and
+        # extensions it cannot know), with and without a value, anywhere in the list: they must not disturb its view
+        for extra in self.extra_caps:
+            lines.insert(self.r.randrange(0, len(lines) + 1), extra)
         return b"\r\n".join(lines) + b"\r\n"
 
     def greeting(self):
